@@ -11,6 +11,10 @@ def plan(tier):
           (PG.kill_mix(1, None, init="ok"), b, K), (PG.kill_gate(2), b, K),
           (PG.die_then_submit(2), b, dict(kinds=("P", "T"))),
           (PG.big_result(1), b, K), (PG.cancel_prog(1), b, K),
+          (PG.resubmit_from_callback("die", 2), b, dict(kinds=("P", "T"))),
+          (PG.idle_then_die(1), b, dict(kinds=("P", "T"))),
+          (PG.idle_then_die(1), b, dict(kinds=("P", "T"), starve="eager:parent:manager")),
+          (PG.idle_then_die(2), b, dict(kinds=("P", "T"), starve="eager:parent:manager")),
           (PG.kill_mix(3, None), b, dict(kinds=("K",))),
           (PG.reusable_resize(2, 3, None), b, dict(kinds=("K",)))]
     for code in (-11, -15, 3):
